@@ -34,6 +34,9 @@ ph PHASE r8 -3
 po POLYNOM r16 1 2 3
 wi WINDOW r8 r16 GT 3
 mp MPLEX r8 r16 1 4
+cl LINCOM 2 r8 1;2 3.5;4.5 r16 5.5;6.5 7.5;8.5
+cp POLYNOM r16 1;1 2;2 3
+cr RECIP f64 2;1
 k CONST FLOAT64 3.5
 ki CONST INT32 -7
 ca CARRAY UINT8 1 2 3 4 5 6
@@ -50,7 +53,7 @@ SUB = """x RAW UINT8 1
 y LINCOM 1 x 2 0
 """
 ALIAS_T = -1          # GD_ALIAS_ENTRIES
-VEC = ["r8", "r16", "f64", "lin", "lt", "bt", "sb", "mu", "rc", "ph", "po", "wi", "mp", "al", "al2", "P_x_S", "P_y_S", "INDEX"]
+VEC = ["r8", "r16", "f64", "lin", "cl", "cp", "cr", "lt", "bt", "sb", "mu", "rc", "ph", "po", "wi", "mp", "al", "al2", "P_x_S", "P_y_S", "INDEX"]
 ALLN = VEC + ["k", "ki", "ca", "s", "sa", "r8/m", "r8/ms", "nosuch"]
 
 
@@ -128,7 +131,7 @@ def twin_script(rng):
             L.append("entry " + a)
         else:
             L.append(rng.choice(["entryset r16 spf %d" % rng.choice([1, 2, 3]), "entryset ph shift %d" % rng.choice([0, 5, -9]), "entryset bt bit %d" % rng.choice([0, 2, 70]), "entryset bt nbits %d" % rng.choice([1, 3, 5]),
-                                 "entryset sb bit 2", "entryset lin scale 2.5 %d" % rng.choice([0, 1, 2]), "entryset lin offset -1 %d" % rng.choice([0, 1]), "entryset rc dividend 8", "entryset po coeff 4 %d" % rng.choice([0, 2, 5]),
+                                 "entryset sb bit 2", "entryset lin scale 2.5 %d" % rng.choice([0, 1, 2]), "entryset lin offset -1 %d" % rng.choice([0, 1]), "entryset rc dividend 8", "entryset cl scale 9 %d" % rng.choice([0, 1]), "entryset cl offset 2 %d" % rng.choice([0, 1]), "entryset cp coeff 5 %d" % rng.choice([0, 1, 2]), "entryset cr dividend 3", "entryset po coeff 4 %d" % rng.choice([0, 2, 5]),
                                  "entryset mp countval 3", "entryset mp period 0", "entryset ph input r16", "entryset mu input r16 %d" % rng.choice([0, 1, 2]), "entryset lt table other.lut", "entryset k consttype u16",
                                  "entryset ca arraylen %d" % rng.choice([2, 9, 12]), "entryset ph rename ph%d %d" % (newn, rng.choice([0, 4])), "entryset r8/m rename mr%d 0" % newn, "entryset k move %d 0" % rng.choice([0, 5]),
                                  "entryset nosuch shift 1"]))
